@@ -1,5 +1,6 @@
 import Qv.Proofs.Info
 import Qv.Proofs.HeapKinds
+import Qv.Proofs.HeapHist
 /-!
 # C19 — Models survive copy and info round trips and never alias their inputs
 
@@ -219,11 +220,101 @@ theorem solve_arg_unchanged (h h' : Heap) (a nres : Nat) (rs : List Nat) (hc : C
 
 /-- **T19.H (histories).**  Every state reachable from the empty heap by any history of the modelled API calls
 (`stepH`: construction, item assignment, `copy`, copy constructors, `get_info`, `create_from_info`, the four properties,
-`add_constraint_*`, `update`, conversions, solvers, annealers, picking sub-objects) has a closed heap and valid
+`add_constraint_*`, `update`, conversions, solvers, annealers, picking sub-objects, the operators in place and not,
+the sat gates, the free utilities) has a closed heap and valid
 variables — the hypothesis `Closed h` of the theorems above is always met. -/
 theorem history_closed (F : Ctor) (ops : List Op) (s : HState) (he : runH F {} ops = some s) :
     Closed s.heap ∧ ∀ r ∈ s.env, r < s.heap.length :=
   runH_ok F ops {} s HState.OK.init he
+
+/-! ## Operators, sat gates, free utilities (C05 "operands are left unchanged", C07 "the inputs are not modified",
+C14 / C18 in-place semantics) — `Qv.Model.HeapArith`
+
+`Confined T h h'`: the heap is still closed; no old cell outside `T` was written; every old object none of whose cells
+is in `T` is `Unchanged` (same abstract value, same reachable cells, same cell contents); nothing is captured (whatever
+an old object reaches afterwards it reached before, or is a cell the call allocated). -/
+
+/-- **arith (not in place).**  `a + b`, `a - b`, `a / c`, `a // c`, `a * c`, `b + a`, `c * a`, `-a` — `b` a model of any
+type, a plain dict, `a` itself, or a number: `d = self.copy(); d <op>= other; return d`.  The result is built from fresh
+cells only — by T19.A it shares nothing with either operand and no operand cell is written. -/
+theorem arith_binop_fresh (F : Ctor) (h h' : Heap) (a r : Nat) (other : Option Nat) (u : Upd) (hc : Closed h)
+    (he : binopH F h a other u = some (h', r)) : FreshResult h.length h h' r := binopH_fresh F hc he
+
+/-- `+a` is `self.copy()`. -/
+theorem arith_pos_fresh (F : Ctor) (h h' : Heap) (a r : Nat) (he : copyM F h a = some (h', r)) :
+    FreshResult h.length h h' r := copyM_fresh F (Nat.le_refl _) he
+
+/-- `b - a` for a number or plain dict `b` (`-1*self + other`: two copies). -/
+theorem arith_rsub_fresh (F : Ctor) (h h' : Heap) (a r : Nat) (other : Option Nat) (u1 u2 : Upd) (hc : Closed h)
+    (he : rsubH F h a other u1 u2 = some (h', r)) : FreshResult h.length h h' r := rsubH_fresh F hc he
+
+/-- `a * b` for a dict / model `b`, including `a * a`. -/
+theorem arith_mul_fresh (F : Ctor) (h h' : Heap) (a b r : Nat) (u : Upd) (hc : Closed h)
+    (he : mulDictH F h a b u = some (h', r)) : FreshResult h.length h h' r := mulDictH_fresh F hc he
+
+/-- `a ** n`, every `n ≥ 1` (`us.length + 1`). -/
+theorem arith_pow_fresh (F : Ctor) (h h' : Heap) (a r : Nat) (us : List Upd) (hc : Closed h)
+    (he : powH F h a us = some (h', r)) : FreshResult h.length h h' r := powH_fresh F hc he
+
+/-- `round(a, n)` and `a.subs(…)`, for PCBO / PCSO with a fresh copy of every recorded constraint. -/
+theorem arith_round_subs_fresh (F : Ctor) (h h' : Heap) (a r : Nat) (pl : Payload)
+    (he : rebuildH F h a pl = some (h', r)) : FreshResult h.length h h' r := rebuildH_fresh F (Nat.le_refl _) he
+
+/-- **arith (in place, item updates).**  `a += b`, `a -= b` (`b` a dict, a model, a number, or `a` itself), `a *= c`,
+`a /= c`, `a //= c` (`c` a number), `a.normalize()`, `a[k] = v`: the call writes only the receiver's object cell,
+`_mapping`, `_reverse_mapping` and `_variables` (`mutFootprint`).  The other operand — unless it is (part of) the
+receiver, as in `a += a` / `a -= a`, where it changes because it *is* the receiver — is unchanged. -/
+theorem arith_inplace_update (h h' : Heap) (recv : Nat) (other : Option Nat) (u : Upd) (hc : Closed h)
+    (he : iupdH h recv other u = some h') : Confined (mutFootprint h recv) h h' := (iupdH_good he).confined hc
+
+/-- **arith (in place, `*=` by a dict).**  `a *= b` for a dict / model `b`, including `a *= a`: the only old cell
+written is the receiver's object cell — its `_mapping`, `_reverse_mapping`, `_variables` are *replaced* by fresh cells
+(`self.clear()` re-runs `__init__`), the old ones are left as they were; a PCBO / PCSO keeps its `_constraints` dict. -/
+theorem arith_inplace_mul (h h' : Heap) (recv other : Nat) (u : Upd) (hc : Closed h)
+    (he : imulDictH h recv other u = some h') : Confined [recv] h h' :=
+  (imulDictH_good (Nat.le_refl _) he).confined hc
+
+/-- `a **= n` (`n = us.length + 1`): nothing at all for `n = 1`; else one copy and `n - 1` times `self *= old`. -/
+theorem arith_inplace_pow (F : Ctor) (h h' : Heap) (recv : Nat) (us : List Upd) (hc : Closed h)
+    (he : ipowH F h recv us = some h') : Confined [recv] h h' := (ipowH_good F (Nat.le_refl _) he).confined hc
+
+/-- `a.clear()`: the receiver's object cell only (fresh empty bookkeeping; a PCBO / PCSO gets a fresh empty
+`_constraints`). -/
+theorem arith_inplace_clear (h h' : Heap) (recv : Nat) (hc : Closed h) (he : clearH h recv = some h') :
+    Confined [recv] h h' := (clearH_good (Nat.le_refl _) he).confined hc
+
+/-- `a.refresh()`: the receiver's object cell only (fresh bookkeeping; a PCBO / PCSO gets fresh copies of its recorded
+constraints). -/
+theorem arith_inplace_refresh (F : Ctor) (h h' : Heap) (recv : Nat) (hc : Closed h)
+    (he : refreshH F h recv = some h') : Confined [recv] h h' := (refreshH_good F (Nat.le_refl _) he).confined hc
+
+/-- **sat.**  `BUFFER(x)` is a copy — `x.copy()` for a model object of any type, `PUBO(x)` for a dict; never `x`. -/
+theorem sat_buffer_fresh (F : Ctor) (h h' : Heap) (x r : Nat) (he : bufferH F h x = some (h', r)) :
+    FreshResult h.length h h' r := bufferH_fresh F (Nat.le_refl _) he
+
+/-- **sat.**  `NOT`, `AND`, `NAND`, `OR`, `NOR`, `XOR`, `XNOR` over any operands (labels, dicts, model objects — also the
+same object several times): the result is built from fresh cells only; no operand cell is written (T19.A). -/
+theorem sat_gate_fresh (F : Ctor) (h h' : Heap) (first : Option Nat) (others : List Nat) (u : Upd) (r : Nat)
+    (hc : Closed h) (he : satH F h first others u = some (h', r)) : FreshResult h.length h h' r := satH_fresh F hc he
+
+/-- **utils.**  `normalize(D)`, `subgraph(G, nodes, connections)`, `subvalue(values, G)` (functions and methods): the
+result `type(D)()` is fresh; `D`, `nodes`, `connections`, `values` are only read. -/
+theorem utils_newlike_fresh (h h' : Heap) (a r : Nat) (extras : List Nat) (pl : Payload)
+    (he : newLikeH h a extras pl = some (h', r)) : FreshResult h.length h h' r := newLikeH_fresh (Nat.le_refl _) he
+
+/-- **utils.**  `pubo_value`, `qubo_value`, `puso_value`, `quso_value`, `approximate_*_extrema`,
+`anneal_temperature_range`, `convert_solution`: no old cell is written — every old object is unchanged — and what they
+return (`rs`; only `convert_solution` returns a container) is fresh. -/
+theorem utils_readonly (h h' : Heap) (args rs : List Nat) (nres : Nat) (hc : Closed h)
+    (he : readOnlyH h args nres = some (h', rs)) :
+    Closed h' ∧ (∀ c, c < h.length → h'[c]? = h[c]?) ∧ (∀ x, x < h.length → Unchanged h h' x) ∧
+      ∀ r ∈ rs, h.length ≤ r ∧ r < h'.length ∧ ∀ c, Reach h' r c → h.length ≤ c := by
+  obtain ⟨f, hrs⟩ := readOnlyH_fresh (n := h.length) he
+  refine ⟨hc.fresh f, fun c hc' => f.old hc', fun x hx => ?_, fun r hr => ?_⟩
+  · have hag : ∀ c, Reach h x c → h'[c]? = h[c]? := fun c hr => f.old (hr.lt hc hx)
+    exact ⟨absVal_congr hag, fun c => Reach.congr hag, hag⟩
+  · have fr : FreshResult h.length h h' r := ⟨f, (hrs r hr).1, (hrs r hr).2⟩
+    exact ⟨(hrs r hr).1, (hrs r hr).2, fun c hrc => fr.reach_fresh hrc⟩
 
 /-! ### Non-vacuity (aliasing half) -/
 
@@ -255,6 +346,21 @@ example : (copyM (fun _ _ => {}) sampleState.heap 15).isSome ∧ (roundTrip (fun
 from *both* is not trivial; and the copy of `G` has 15 cells of its own -/
 example : (reachList sampleState.heap [15]).filter (fun c => (reachList sampleState.heap [4]).contains c) = [9, 6, 7, 8] ∧
     ((copyM (fun _ _ => {}) sampleState.heap 15).map (fun p => (reachList p.1 [p.2]).length)) = some 15 := by
+  decide +kernel
+
+/-- the operators, gates and utilities are defined on it (`G` = cell 15, `H` = cell 4, the dict = cell 5), also with
+both operands the same object -/
+example : (binopH (fun _ _ => {}) sampleState.heap 15 (some 15) {}).isSome ∧ (rsubH (fun _ _ => {}) sampleState.heap 15 (some 5) {} {}).isSome ∧
+    (mulDictH (fun _ _ => {}) sampleState.heap 15 15 {}).isSome ∧ (powH (fun _ _ => {}) sampleState.heap 15 [{}, {}]).isSome ∧
+    (rebuildH (fun _ _ => {}) sampleState.heap 15 {}).isSome ∧ (iupdH sampleState.heap 15 (some 15) {}).isSome ∧
+    (imulDictH sampleState.heap 15 15 {}).isSome ∧ (ipowH (fun _ _ => {}) sampleState.heap 15 [{}]).isSome ∧
+    (clearH sampleState.heap 15).isSome ∧ (refreshH (fun _ _ => {}) sampleState.heap 15).isSome ∧
+    (satH (fun _ _ => {}) sampleState.heap (some 15) [5, 15] {}).isSome ∧ (newLikeH sampleState.heap 15 [5] {}).isSome ∧
+    (readOnlyH sampleState.heap [5, 15] 1).isSome := by decide +kernel
+
+/-- `H` (cell 4) shares the constraint object 6 with `G` but none of the cells `G += …` writes: the hypothesis of
+`arith_inplace_update` holds for it, and `G *= G` leaves it alone as well -/
+example : (reachList sampleState.heap [4]).all (fun c => !(mutFootprint sampleState.heap 15).contains c) = true := by
   decide +kernel
 
 /-- the hypothesis of T19.C-add_constraint holds for the dict argument (cell 5) of a call on `G` -/
